@@ -139,7 +139,9 @@ func createProcess(p *Process, isMethod bool) {
 	case "err":
 		//p.Stderr.Writeln([]byte("Invalid usage of named pipes: stderr defaults to <err>."))
 	case "out":
-		p.Stderr = p.Next.Stdin
+		// <!out>: stderr goes wherever this command's stdout goes (the next
+		// command's stdin when piped, otherwise the parent's stdout)
+		p.Stderr = p.Stdout
 	default:
 		pipe, err := GlobalPipes.Get(p.NamedPipeErr)
 		if err == nil {
